@@ -201,11 +201,16 @@ def withParents (fs : List FsEntry) (p : Str) (self : Bool) : List FsEntry :=
 def kv (args : List String) (key : String) : Option String :=
   args.findSome? (fun a => if a.startsWith (key ++ "=") then some ((a.drop (key.length + 1)).toString) else none)
 
+/-- the scratch tree plus the (existing) ancestor directories of the scratch root -/
+def DState.fsAll (d : DState) : List FsEntry :=
+  let anc := (World.prefixes d.root).filter (fun q => !d.fs.any (·.path == q))
+  d.fs ++ anc.map (fun q => { path := q, isDir := true, content := none, nameOk := true })
+
 def DState.ctx (d : DState) : PCtx :=
+  -- module files are read through the kernel's walk of the path text (`./lib//m.pakhi` is `lib/m.pakhi`)
+  let w : World := { fs := d.fsAll, stdin := [], platform := W.wLinux }
   { mainPath := pathJoin d.root "main.pakhi".toList, cwd := d.root,
-    readFile := fun p => match d.fs.find? (·.path == p) with
-      | some e => if e.isDir then none else e.content
-      | none => none }
+    readFile := fun p => w.readFileP p }
 
 def tokLine (t : Token) : String :=
   let payload := match t.kind with
